@@ -1026,6 +1026,66 @@ def corrupt_simple(r, doc, what=None):
     return what, doc
 
 
+def gen_rooms_input(r):
+    """a `--rooms` string or a rooms file, mostly valid with one deviation; the expectation comes from
+    the Lean model of the two parsers (driver op RI)"""
+    doc, _ = gen_simple(r, rooms_mode=0)
+    if r.random() < 0.5:
+        items = [str(r.randint(0, 40)) for _ in range(r.randint(1, 6))]
+        dev = r.choice(["none", "none", "plus", "zeros", "space", "empty-item", "trailing-comma", "letters", "minus", "float", "big", "max", "nonascii-digit",
+                        "empty", "semicolon", "inner-plus", "double-plus", "underscore", "hex", "tab"])
+        j = r.randrange(len(items))
+        if dev == "plus": items[j] = "+" + items[j]
+        elif dev == "zeros": items[j] = "000" + items[j]
+        elif dev == "space": items[j] = r.choice([" " + items[j], items[j] + " "])
+        elif dev == "empty-item": items.insert(j, "")
+        elif dev == "trailing-comma": items.append("")
+        elif dev == "letters": items[j] = r.choice(["abc", "1a", "x9", "ten"])
+        elif dev == "minus": items[j] = "-" + items[j]
+        elif dev == "float": items[j] = items[j] + r.choice([".0", ".5", "e1"])
+        elif dev == "big": items[j] = r.choice(["18446744073709551616", "99999999999999999999999"])
+        elif dev == "max": items[j] = r.choice(["18446744073709551615", "4294967296"])
+        elif dev == "nonascii-digit": items[j] = r.choice(["\u0663", "\uff11\uff12", "1\u0660"])
+        elif dev == "empty": items = [""]
+        elif dev == "semicolon": items = [";".join(items)] if len(items) > 1 else ["1;2"]
+        elif dev == "inner-plus": items[j] = "1+2"
+        elif dev == "double-plus": items[j] = "++3"
+        elif dev == "underscore": items[j] = "1_0"
+        elif dev == "hex": items[j] = "0x10"
+        elif dev == "tab": items[j] = items[j] + "\t"
+        return {"kind": "roomsin", "doc": doc, "what": "str-" + dev, "str": ",".join(items)}
+    kinds = [{"name": f"K{i}", "capacity": r.randint(0, 40), "quantity": r.randint(0, 4)} for i in range(r.randint(0, 4))]
+    dev = r.choice(["none", "none", "extra-member", "seq-form", "seq-short", "seq-long", "missing-name", "missing-capacity", "missing-quantity", "name-number",
+                    "capacity-string", "capacity-float", "capacity-neg", "capacity-big", "capacity-max", "quantity-float", "quantity-neg", "quantity-null",
+                    "top-object", "top-null", "kind-null", "kind-string", "nested-array", "capacity-bool", "empty"])
+    if dev not in ("none", "top-object", "top-null", "empty") and not kinds:
+        kinds = [{"name": "K", "capacity": 10, "quantity": 2}]
+    j = r.randrange(len(kinds)) if kinds else 0
+    v = kinds
+    if dev == "extra-member": kinds[j]["comment"] = r.choice(["x", 1, None, [1]])
+    elif dev == "seq-form": kinds[j] = [kinds[j]["name"], kinds[j]["capacity"], kinds[j]["quantity"]]
+    elif dev == "seq-short": kinds[j] = [kinds[j]["name"], kinds[j]["capacity"]]
+    elif dev == "seq-long": kinds[j] = [kinds[j]["name"], kinds[j]["capacity"], kinds[j]["quantity"], 1]
+    elif dev.startswith("missing-"): del kinds[j][dev[8:]]
+    elif dev == "name-number": kinds[j]["name"] = 7
+    elif dev == "capacity-string": kinds[j]["capacity"] = "10"
+    elif dev == "capacity-float": kinds[j]["capacity"] = r.choice([10.0, 10.5, 1e2])
+    elif dev == "capacity-neg": kinds[j]["capacity"] = -r.randint(1, 9)
+    elif dev == "capacity-big": kinds[j]["capacity"] = r.choice([18446744073709551616, 10 ** 30])
+    elif dev == "capacity-max": kinds[j]["capacity"] = r.choice([18446744073709551615, 2 ** 32])
+    elif dev == "quantity-float": kinds[j]["quantity"] = 2.0
+    elif dev == "quantity-neg": kinds[j]["quantity"] = -1
+    elif dev == "quantity-null": kinds[j]["quantity"] = None
+    elif dev == "top-object": v = {"rooms": kinds}
+    elif dev == "top-null": v = None
+    elif dev == "kind-null": kinds[j] = None
+    elif dev == "kind-string": kinds[j] = "K"
+    elif dev == "nested-array": v = [kinds]
+    elif dev == "capacity-bool": kinds[j]["capacity"] = True
+    elif dev == "empty": v = []
+    return {"kind": "roomsin", "doc": doc, "what": "file-" + dev, "file": v}
+
+
 def stream_cli_malformed(seed, tier, workdir, stream):
     r = random.Random(seed * 49979687 + 17)
     # systematic: every single-field corruption on `bases` fresh base documents
@@ -1043,6 +1103,8 @@ def stream_cli_malformed(seed, tier, workdir, stream):
                 if what is not None:
                     cases.append({"kind": "cde", "doc": doc, "opts": opts, "what": what})
                     break
+        for k in range(12):
+            cases.append(gen_rooms_input(r))
         if b % 2 == 0:
             for w in ["threads-0", "rooms-garbage", "rooms-empty-item", "rooms-neg", "rooms-file-missing", "rooms-file-garbage", "rooms-file-wrong-shape",
                       "both-rooms", "threads-neg", "threads-str", "track-str", "input-missing"]:
@@ -1106,6 +1168,21 @@ def lines_cli_malformed(cases, workdir, stream, binary):
                     args = ["--cde", "--track", "three", inp, outp]; allowed = {65}
                 elif w == "input-missing":
                     args = [os.path.join(d, "nonexistent-input.json"), outp]; allowed = {66}
+            elif c["kind"] == "roomsin":
+                # the two room inputs: accepted exactly when the Lean model of the parser accepts
+                json.dump(c["doc"], open(inp, "w", encoding="utf-8"), ensure_ascii=False)
+                if "str" in c:
+                    args = ["--num-threads", "1", "--rooms=" + c["str"], inp, outp]
+                    payload = {"str": c["str"]}
+                else:
+                    json.dump(c["file"], open(os.path.join(d, "rooms.json"), "w", encoding="utf-8"), ensure_ascii=False)
+                    args = ["--num-threads", "1", "--rooms-file", os.path.join(d, "rooms.json"), inp, outp]
+                    payload = {"file": tag(c["file"])}
+                rc, so, se, to = run_bin(binary, args)
+                verdict = "REFUSE" if (rc == 65 and "ERROR" in se and not os.path.exists(outp)) else ("ok" if (rc in (0, 1) and not to and "panicked" not in se) else f"exit {rc} timeout {to} {se[-200:]}")
+                out.append(line("corr", ["C15"], "RI", json.dumps(payload, ensure_ascii=False), "PREFIX:" + verdict, case=i, stream=stream,
+                                feat=[f"roomsin:{c['what']}", f"exit={rc}"]))
+                continue
             else:
                 raw = json.dumps(c["doc"]).encode()
                 w = c["what"]
